@@ -1,11 +1,14 @@
 //! C02 harness ("concurrent querying is sound, single-flight and terminates").
 //!
-//! modes (`--mode all|engine|trace|tset|f6|walk`, default all):
+//! modes (`--mode all|engine|trace|tset|f6|walk|mepoch`, default all):
 //!  * `engine` — real parallel runs (tokio multi-thread, 2..16 workers) of generated programs on a fresh
 //!    in-memory engine: round 1 (M tasks, overlapping roots), one input session, round 2; judged by
 //!    independent oracles only (from-scratch values, executor overlap detector, exec-twice, hang, panic).
 //!  * `trace`  — the same kind of runs, smaller, with a hook sink installed; the computing-table events are
 //!    written as `ct …` lines (PROTOCOL.md §1) for the Lean LTS driver.
+//!  * `mepoch` — multi-epoch concurrent histories: the cases of `eng::gen_layered` / `gen_pjswitch` / `gen_program`+`gen_history`
+//!    (4-9 sessions, unordered groups, firewalls, projections) with every round issued as concurrent tasks on 1/2/4/8
+//!    workers; every epoch judged by the from-scratch oracle (a defect whose wrong value appears only one edit later).
 //!  * `tset`   — `CompressedBackwardEdgeSet` driven directly: sequential op sequences (`ts …` lines) and
 //!    concurrent histories judged by a linearizability oracle for sets.
 //!  * `f6`     — the forced two-thread schedule of finding F6 on the real set (no hooks: the gate sits in
@@ -450,28 +453,32 @@ fn run_spec_inner(spec: &Spec, sink: Option<Arc<TraceSink>>, sh: Arc<Shared>) ->
 /// The watchdog: the run happens on its own OS thread (which builds the runtime and blocks on it); this thread
 /// waits on a std channel with a wall-clock limit.  On a timeout the runner thread and its runtime are ABANDONED
 /// (never joined): threads blocked in a lock stay blocked and cost nothing, the process ends with `main`.
-fn run_spec(spec: &Spec, sink: Option<Arc<TraceSink>>) -> Result<RunOut, RunErr> {
+fn with_watchdog<T: Send + 'static>(f: impl FnOnce(Arc<Shared>) -> T + Send + 'static) -> Result<T, RunErr> {
     let (tx, rx) = std::sync::mpsc::channel();
-    let spec2 = spec.clone();
-    let s2 = sink.clone();
     let sh = Arc::new(Shared::default());
     let sh2 = sh.clone();
-    let _ = std::thread::Builder::new().stack_size(64 << 20).spawn(move || { let r = run_spec_inner(&spec2, s2, sh2); let _ = tx.send(r); });
+    let _ = std::thread::Builder::new().stack_size(64 << 20).spawn(move || { let r = f(sh2); let _ = tx.send(r); });
     // the limit applies to the time WITHOUT PROGRESS (no executor invocation finished, no request returned): a hung
     // run makes none, a run on an overloaded machine keeps making some; 12 limits in total is a hang whatever happens
     let t0 = Instant::now();
     let progress = || sh.log.lock().map(|l| l.len() as u64).unwrap_or(0).wrapping_mul(1_000_003) ^ PROGRESS.load(SeqCst);
     let mut last = (progress(), Instant::now());
-    let r = loop {
+    loop {
         match rx.recv_timeout(Duration::from_millis(100)) {
-            Ok(r) => break Ok(r),
-            Err(std::sync::mpsc::RecvTimeoutError::Disconnected) => break Err(RunErr::Hang),
+            Ok(r) => return Ok(r),
+            Err(std::sync::mpsc::RecvTimeoutError::Disconnected) => return Err(RunErr::Hang),
             Err(std::sync::mpsc::RecvTimeoutError::Timeout) => {}
         }
         let p = progress();
         if p != last.0 { last = (p, Instant::now()); }
-        if last.1.elapsed() > wall_limit() || t0.elapsed() > wall_limit() * 12 { break Err(RunErr::Hang); }
-    };
+        if last.1.elapsed() > wall_limit() || t0.elapsed() > wall_limit() * 12 { return Err(RunErr::Hang); }
+    }
+}
+
+fn run_spec(spec: &Spec, sink: Option<Arc<TraceSink>>) -> Result<RunOut, RunErr> {
+    let spec2 = spec.clone();
+    let s2 = sink.clone();
+    let r = with_watchdog(move |sh| run_spec_inner(&spec2, s2, sh));
     if sink.is_some() { verif::set_sink(None); }
     r
 }
@@ -640,6 +647,174 @@ fn mode_walk(ctx: &mut Ctx, r: &mut Rng, n: u64, reps: u64, keep_going: bool) {
         if hung(ctx) > 0 && !keep_going { ctx.inc("walk_mode_stopped_after_hang", 1); break; }
     }
     ctx.inc("wall_ms_walk", t0.elapsed().as_millis() as u64);
+}
+
+// ------------------------------------------------------------------------------------------
+// mode mepoch: MULTI-EPOCH concurrent histories (seeded change "unordered group: last chunk decides")
+// ------------------------------------------------------------------------------------------
+
+/// A history of `eng::Case` (4-9 input sessions with rounds in between, as `gen_layered` / `gen_pjswitch` /
+/// `gen_program`+`gen_history` produce them) in which every `Round(keys)` is issued as CONCURRENT tasks: one per
+/// requested key plus 0-3 more on random other keys (inner nodes of the chain included).  Every epoch is judged.
+#[derive(Clone, Debug)]
+enum MOp { Session(Vec<(u32, i64)>), Round(Vec<Vec<u32>>) }
+#[derive(Clone, Debug, Default)]
+struct MSpec { src: String, w: usize, program: Program, ops: Vec<MOp> }
+impl MSpec {
+    fn render(&self) -> String {
+        let mut s = format!("conc-me src={} w={} keys={} ops={}\n", self.src, self.w, self.program.nodes.len(), self.ops.len());
+        for l in self.program.render_lines() { s.push_str(&l); s.push('\n'); }
+        for o in &self.ops { match o {
+            MOp::Session(ws) => { s.push_str("session"); for (k, v) in ws { s.push_str(&format!(" {k} {v}")); } s.push('\n'); }
+            MOp::Round(ts) => { s.push_str("round "); s.push_str(&ts.iter().map(|t| join_u32(t)).collect::<Vec<_>>().join(" | ")); s.push('\n'); }
+        } }
+        s
+    }
+    fn parse(text: &str) -> MSpec {
+        let mut sp = MSpec::default();
+        for line in text.lines() {
+            let line = line.trim(); if line.is_empty() { continue; }
+            let t: Vec<&str> = line.split_whitespace().collect();
+            match t[0] {
+                "conc-me" => for kv in &t[1..] { if let Some(v) = kv.strip_prefix("src=") { sp.src = v.into(); } if let Some(v) = kv.strip_prefix("w=") { sp.w = v.parse().unwrap(); } },
+                "node" => sp.program.parse_node_line(line),
+                "session" => sp.ops.push(MOp::Session(t[1..].chunks(2).map(|c| (c[0].parse().unwrap(), c[1].parse().unwrap())).collect())),
+                "round" => sp.ops.push(MOp::Round(line["round".len()..].split('|').map(|x| x.split_whitespace().map(|k| k.parse().unwrap()).collect::<Vec<u32>>()).filter(|t| !t.is_empty()).collect())),
+                _ => {}
+            }
+        }
+        sp
+    }
+}
+
+fn gen_mepoch(r: &mut Rng) -> MSpec {
+    let (src, case) = match r.below(10) {
+        0..=4 => ("layered", gen_layered(r)),
+        5 | 6 => ("pjswitch", gen_pjswitch(r)),
+        _ => {
+            let cfg = GenCfg { max_keys: *r.pick(&[8u32, 14, 24]), max_ops: 18, firewalls: r.chance(2, 3), externals: false, unordered: true, cycles: false };
+            let p = gen_program(r, &cfg); let ops = gen_history(r, &p, &cfg);
+            ("gen", Case { program: p, ops })
+        }
+    };
+    let n = case.program.nodes.len() as u32;
+    let non_input: Vec<u32> = (0..n).filter(|k| case.program.kind(*k) != Kind::Input).collect();
+    let mut ops = vec![];
+    for o in &case.ops { match o {
+        Op::Session(ws) => ops.push(MOp::Session(ws.iter().filter_map(|w| if let Write::Set(k, v) = w { Some((*k, *v)) } else { None }).collect())),
+        Op::Round(ks) => {
+            let mut ts: Vec<Vec<u32>> = ks.iter().map(|k| vec![*k]).collect();
+            let extra = if r.chance(1, 3) { 0 } else { r.range(1, 3) };
+            for _ in 0..extra { if !non_input.is_empty() { let c = r.range(1, 2); ts.push((0..c).map(|_| *r.pick(&non_input)).collect()); } }
+            r.shuffle(&mut ts);
+            ops.push(MOp::Round(ts));
+        }
+    } }
+    MSpec { src: src.into(), w: *r.pick(&[1usize, 2, 2, 4, 4, 8]), program: case.program, ops }
+}
+
+#[derive(Default, Clone)]
+struct MRunOut { rounds: Vec<(Vec<(u32, i64)>, Vec<ExecRecord>)>, overlap: Vec<u32>, panic: Option<String> }
+
+fn run_mspec_inner(spec: &MSpec, sh: Arc<Shared>) -> MRunOut {
+    let rt = if spec.w == 0 { tokio::runtime::Builder::new_current_thread().enable_all().build().unwrap() }
+        else { tokio::runtime::Builder::new_multi_thread().worker_threads(spec.w).thread_stack_size(64 << 20).enable_all().build().unwrap() };
+    let spec2 = spec.clone();
+    let r = std::panic::catch_unwind(std::panic::AssertUnwindSafe(|| {
+        rt.block_on(async move {
+            let spec = spec2;
+            let mut ro = MRunOut::default();
+            *sh.program.write().unwrap() = spec.program.clone();
+            let mut engine = Engine::<MemCfg>::new_with(Plugin::default(), InMemoryStorageEngineFactory, SeededStableHasherBuilder::new(0)).await.unwrap();
+            register_all(&mut engine, &sh);
+            let engine = Arc::new(engine);
+            let mut panic = None;
+            for op in &spec.ops {
+                match op {
+                    MOp::Session(ws) => { let mut s = engine.input_session().await; for (k, v) in ws { s.set_input(In(*k), *v).await; } s.commit().await; ro.rounds.push((vec![], vec![])); }
+                    MOp::Round(ts) => {
+                        let vals = do_round(&engine, &sh, &[], ts, &mut panic).await;
+                        let log = std::mem::take(&mut *sh.log.lock().unwrap());
+                        ro.rounds.push((vals, log));
+                    }
+                }
+                if panic.is_some() { break; }
+            }
+            ro.overlap = sh.overlap.lock().unwrap().clone();
+            ro.panic = panic;
+            ro
+        })
+    }));
+    rt.shutdown_background();
+    match r { Ok(ro) => ro, Err(p) => MRunOut { panic: Some(panic_msg(p)), ..Default::default() } }
+}
+
+/// oracles: from-scratch value of EVERY returned value of EVERY epoch; per epoch (between two sessions) the executor of
+/// a key completes at most once; no overlap; no panic.  `ro.rounds[i]` belongs to `spec.ops[i]`.
+fn judge_mrun(spec: &MSpec, ro: &MRunOut) -> Vec<(String, String)> {
+    let p = &spec.program;
+    let mut fails: Vec<(String, String)> = vec![];
+    if let Some(m) = &ro.panic { fails.push(("C02:panic".into(), format!("panic during the run: {m}"))); return fails; }
+    if !ro.overlap.is_empty() { fails.push(("C02:overlap".into(), format!("executor invocations of one key overlapped in time: keys {:?}", ro.overlap))); }
+    let mut truth = Truth::default();
+    let mut epoch = 0usize;
+    let mut cnt: BTreeMap<u32, Vec<&ExecRecord>> = BTreeMap::new();
+    let mut right_epochs = 0usize;
+    for (i, op) in spec.ops.iter().enumerate() {
+        let Some((vals, log)) = ro.rounds.get(i) else { break };
+        match op {
+            MOp::Session(ws) => { for (k, v) in ws { truth.inputs.insert(*k, *v); } epoch += 1; cnt.clear(); }
+            MOp::Round(_) => {
+                let mut sc = Scratch::new(p, &truth);
+                let mut bad = vals.iter().filter_map(|(k, v)| { let e = sc.value(*k).unwrap(); if *v != e { Some((*k, *v, e)) } else { None } });
+                if let Some((k, v, e)) = bad.next() {
+                    let sessions: Vec<String> = spec.ops[..i].iter().filter_map(|o| if let MOp::Session(ws) = o { Some(format!("{ws:?}")) } else { None }).collect();
+                    fails.push(("C02:multi-epoch:stale-value".into(), format!("epoch {epoch} (op {i}, {} workers): query {k} returned {v}, from-scratch value is {e}; the {right_epochs} rounds before it were right; sessions so far: {}; executed in this round: {:?}", spec.w, sessions.join(" "), log.iter().map(|x| x.key).collect::<Vec<_>>())));
+                    break;
+                }
+                right_epochs += 1;
+                for e in log.iter() { if e.result.is_some() { cnt.entry(e.key).or_default().push(e); } }
+                if let Some((k, v)) = cnt.iter().find(|(k, v)| v.len() > 1 && p.kind(**k) != Kind::Input) {
+                    fails.push(("C02:multi-epoch:exec-twice".into(), format!("epoch {epoch}: executor of key {k} ran to completion {} times between two sessions: {:?}", v.len(), v)));
+                    break;
+                }
+            }
+        }
+    }
+    fails
+}
+
+fn eval_mspec(ctx: &mut Ctx, spec: &MSpec, tag: &str) {
+    ctx.evals += 1;
+    ctx.inc(&format!("{tag}_runs_src_{}", spec.src), 1);
+    ctx.inc(&format!("{tag}_workers_{:02}", spec.w), 1);
+    let sessions = spec.ops.iter().filter(|o| matches!(o, MOp::Session(_))).count() as u64;
+    let rounds = spec.ops.iter().filter(|o| matches!(o, MOp::Round(_))).count() as u64;
+    ctx.inc(&format!("{tag}_sessions_total"), sessions); ctx.inc(&format!("{tag}_rounds_total"), rounds);
+    ctx.inc(&format!("{tag}_tasks_total"), spec.ops.iter().map(|o| if let MOp::Round(t) = o { t.len() as u64 } else { 0 }).sum());
+    ctx.max("max_sessions_per_case", sessions);
+    if spec.program.has_unordered() { ctx.inc(&format!("{tag}_runs_with_unordered_group"), 1); }
+    let text = spec.render();
+    let spec2 = spec.clone();
+    match with_watchdog(move |sh| run_mspec_inner(&spec2, sh)) {
+        Err(RunErr::Hang) => { ctx.inc(&format!("{tag}_hangs_workers_{:02}", spec.w), 1); ctx.fail("C02:hang-multi-epoch", format!("the run made no progress (no executor finished, no request returned) for {} ms of wall time (multi-epoch history from {}, {} workers)", wall_limit().as_millis(), spec.src, spec.w), &text); }
+        Ok(ro) => {
+            let fails = judge_mrun(spec, &ro);
+            ctx.inc("executor_invocations", ro.rounds.iter().map(|r| r.1.len() as u64).sum());
+            let concurrent = spec.ops.iter().any(|o| matches!(o, MOp::Round(t) if t.len() >= 2));
+            if sessions >= 3 && concurrent && ro.panic.is_none() { ctx.distinct.insert(hash_text(&text)); if ctx.samples.len() < 3 && text.len() < 2500 && spec.program.has_unordered() { ctx.samples.push(text.clone()); } }
+            for (sig, desc) in &fails { ctx.inc(&format!("{tag}_src_{}_hits:{sig}", spec.src), 1); ctx.fail(sig, desc.clone(), &text); }
+        }
+    }
+}
+
+fn mode_mepoch(ctx: &mut Ctx, r: &mut Rng, n: u64) {
+    let t0 = Instant::now();
+    for _ in 0..n {
+        let spec = gen_mepoch(r); eval_mspec(ctx, &spec, "me");
+        if ctx.counters.get("sig_hits:C02:hang-multi-epoch").copied().unwrap_or(0) >= 2 { ctx.inc("mepoch_mode_stopped_after_2_hangs", 1); break; }
+    }
+    ctx.inc("wall_ms_mepoch", t0.elapsed().as_millis() as u64);
 }
 
 // ------------------------------------------------------------------------------------------
@@ -1088,6 +1263,9 @@ fn replay(ctx: &mut Ctx, out: &mut Out, text: &str) {
     if first.starts_with("tset-hist") {
         let h = Hist::parse(text);
         for _ in 0..200 { attempts += 1; if eval_hist(ctx, &h) { break; } }
+    } else if first.starts_with("conc-me") {
+        let spec = MSpec::parse(text);
+        for _ in 0..200 { attempts += 1; eval_mspec(ctx, &spec, "replay"); if !ctx.failures.is_empty() { break; } }
     } else if first.starts_with("conc") {
         let spec = Spec::parse(text);
         for _ in 0..200 { attempts += 1; eval_spec(ctx, &spec, None, "replay"); if !ctx.failures.is_empty() { break; } }
@@ -1118,6 +1296,7 @@ fn main() {
     let n_walk = flag("--n-walk").and_then(|x| x.parse().ok()).unwrap_or(if thorough { 1500 } else { 140 });
     let walk_reps = if thorough { 15 } else { 3 };
     let keep_going = a.rest.iter().any(|x| x == "--walk-keep-going");
+    let n_me = flag("--n-me").and_then(|x| x.parse().ok()).unwrap_or(if thorough { 2000 } else { 150 });
     if let Some(ms) = flag("--wall-limit-ms").and_then(|x| x.parse().ok()) { WALL_LIMIT_MS.store(ms, SeqCst); }
     if let Some(rp) = &a.replay {
         let text = std::fs::read_to_string(rp).unwrap();
@@ -1129,10 +1308,12 @@ fn main() {
             "trace" => mode_trace(&mut ctx, &mut out, &mut rng, n_trace, no_fw),
             "engine" => mode_engine(&mut ctx, &mut rng, n_engine, thorough),
             "walk" => mode_walk(&mut ctx, &mut rng, n_walk, walk_reps, keep_going),
+            "mepoch" => mode_mepoch(&mut ctx, &mut rng, n_me),
             _ => {
                 mode_f6(&mut ctx, &mut out);
                 // own generator state: the other modes' cases do not depend on how many walk cases are run
                 mode_walk(&mut ctx, &mut Rng::new(a.seed ^ 0xF60), n_walk, walk_reps, keep_going);
+                mode_mepoch(&mut ctx, &mut Rng::new(a.seed ^ 0xE70C), n_me);
                 mode_tset(&mut ctx, &mut out, &mut rng, n_seq, n_hist);
                 mode_trace(&mut ctx, &mut out, &mut rng, n_trace, no_fw);
                 mode_engine(&mut ctx, &mut rng, n_engine, thorough);
@@ -1145,7 +1326,7 @@ fn main() {
     for (k, v) in &ctx.maxes { dist.push(format!("{}:{v}", jstr(k))); }
     dist.push(format!("\"mode\":{}", jstr(&mode)));
     dist.push(format!("\"tset_variant\":{}", jstr(match ctx.variant_fixed { Some(true) => "fixed", Some(false) => "asis", None => "n/a" })));
-    let rule = "engine/trace runs: program families gen (gen_program, normal+input nodes), fw (with firewalls/projections; overlap/hang/panic verdicts only), fanin (1 input, optional chain, 1..200 callers of one callee, biased 28..40 around the 32-element tier threshold; sequential prefix then concurrent rest), wide (layered, up to 600/3000 keys, unordered groups up to 40 keys, aggregator roots), fandrop (mode walk, finding F60: 1-3 groups of a firewall — or a projection / normal node over it — with 16..40 callers of which 1-8 drop and 0-2 add their edge after the edit, requested through fresh roots or directly, one task each, on 0 = current_thread / 1 / 2 / 3 / 4 / 8 workers; corpus/C02-F60 first; non-trivial = fan-in >= 16, the edit changes a caller's value, >= 2 tasks in the second epoch) x 2..16 tokio workers x round 1 (M tasks with overlapping roots) / one input edit / round 2 (all keys); non-trivial = at least 2 round-1 tasks request a common non-input key (as a root or through the dependencies of their roots) and the edit changes the from-scratch value of some round-1 root; tset sequences: non-trivial = crosses the threshold; tset histories: every third one is `walkrem` (small tier, prefill 8..32, 1-4 remover threads removing/re-inserting LOW-index elements in a loop, 1-3 threads iterating 6-30 times, the upper half never touched: an iteration must contain every element present during its whole interval, once); non-trivial = at least 2 threads and the history starts within 28..33 elements, ends at >= 28, crosses the threshold, or iterates beside removers on the small tier; distinct by hash of the case text";
+    let rule = "engine/trace runs: program families gen (gen_program, normal+input nodes), fw (with firewalls/projections; overlap/hang/panic verdicts only), fanin (1 input, optional chain, 1..200 callers of one callee, biased 28..40 around the 32-element tier threshold; sequential prefix then concurrent rest), wide (layered, up to 600/3000 keys, unordered groups up to 40 keys, aggregator roots), fandrop (mode walk, finding F60: 1-3 groups of a firewall — or a projection / normal node over it — with 16..40 callers of which 1-8 drop and 0-2 add their edge after the edit, requested through fresh roots or directly, one task each, on 0 = current_thread / 1 / 2 / 3 / 4 / 8 workers; corpus/C02-F60 first; non-trivial = fan-in >= 16, the edit changes a caller's value, >= 2 tasks in the second epoch) ; mepoch (mode mepoch): histories of eng::gen_layered (50 %) / gen_pjswitch (20 %) / gen_program+gen_history with unordered groups (30 %), 4-9 sessions, every round issued as one task per requested key plus 0-3 tasks on random non-input keys, 1/2/4/8 workers, every round of every epoch judged (values, executed-twice per epoch, overlap, watchdog); non-trivial = >= 3 sessions and a round with >= 2 tasks; the two-epoch families: x 2..16 tokio workers x round 1 (M tasks with overlapping roots) / one input edit / round 2 (all keys); non-trivial = at least 2 round-1 tasks request a common non-input key (as a root or through the dependencies of their roots) and the edit changes the from-scratch value of some round-1 root; tset sequences: non-trivial = crosses the threshold; tset histories: every third one is `walkrem` (small tier, prefill 8..32, 1-4 remover threads removing/re-inserting LOW-index elements in a loop, 1-3 threads iterating 6-30 times, the upper half never touched: an iteration must contain every element present during its whole interval, once); non-trivial = at least 2 threads and the history starts within 28..33 elements, ends at >= 28, crosses the threshold, or iterates beside removers on the small tier; distinct by hash of the case text";
     let mut rep = String::from("{");
     rep.push_str(&format!("\"evaluations\":{},\"distinct_nontrivial\":{},", ctx.evals, ctx.distinct.len()));
     rep.push_str(&format!("\"rule\":{},", jstr(rule)));
